@@ -82,6 +82,8 @@ pub enum Cmd {
 pub struct Program {
     pub decls: Vec<Decl>,
     pub cmds: Vec<Cmd>,
+    /// known answers: after command `.0` (index into `cmds`) the fact `.1` must hold (`(check ..)`)
+    pub expect: Vec<(usize, String)>,
 }
 
 // ------------------------------------------------------------------------------------------
